@@ -3,6 +3,10 @@
 import json
 PROPS=[json.loads(l) for l in open('/verif/properties.jsonl')]
 CHECKS = {
+ "C01": dict(
+   text="Totality search with five generators under catch_unwind: 20k/1M proptest-generated full-language sources with boundary-heavy bindings, 100k/5M token mutants and truncations of them, random UTF-8 / CEL-alphabet strings, an exhaustive built-in sweep (71 functions/macros/constructors x all arity-0/1 tuples of a 50-value boundary pool and all arity-2 tuples of a 19-value (quick) / 50-value (thorough) pool, free and method form, literal and bound, both build profiles), and ~1300 isolated child-process runs (30 nesting/width ladder constructs x depths up to 4096 (quick) / 16384 (thorough) and 27 cyclic program-reference shapes, on the 8 MiB main stack and a 2 MiB thread, release and overflow-checking builds). Only a panic, a dead child or a child time-out fail. Exploration.",
+   note="Trusted: catch_unwind + process isolation as the observation of 'panic/abort'; a 60 s child time-out is inconclusive, never a violation; non-termination of unexplored inputs is out of reach.",
+   technique="proptest grammar-based generation + token mutation + random text (fuzzing for panics), exhaustive built-in x boundary-argument sweep, child-process isolation for stack-exhaustion ladders and reference cycles"),
  "C02": dict(
    text="Exhaustive enumeration of all flat (parenthesis-free) sequences of 1-2 binary operators over decorated operands, all 2744 operator triples, and all placements of one ?: (15^3 slot fillings, else-chains), each compared with the tree an independent precedence-climbing parser derives from the CEL table; plus 10k/300k proptest-generated random trees rendered with minimal/full/random redundant parentheses and tight/single/random whitespace (shape must equal the generated tree), and 10k/300k typed trees evaluated under random bindings against a reference evaluator. Exploration: holds on everything enumerated/generated.",
    note="Trusted: the CEL precedence table as written in the property; Program::ast() as the exposed tree with Primary::Parens transparent.",
